@@ -309,41 +309,76 @@ Proof.
     apply (In_get Z.eqb zeqb_spec); [apply (inv_nodup _ _ _ HI)|exact H].
 Qed.
 
-(* a report that the property says never counts leaves the whole state unchanged *)
-Lemma counts_none_unchanged : forall cfg st c oa,
-  counts cfg (closed st) c oa = None -> step cfg st (Observe c oa) = st.
+Lemma remove_conn_cobs : forall cfg st c, cobs (remove_conn cfg st c) = del Z.eqb c (cobs st).
+Proof.
+  intros cfg st c. unfold remove_conn.
+  destruct (get Z.eqb c (cobs st)) eqn:Eg.
+  - destruct (conn_info cfg c) as [ci|]; [|reflexivity].
+    destruct (c_local ci); [|reflexivity]. destruct (observer_of (c_remote ci)); reflexivity.
+  - symmetry. apply (del_notin Z.eqb zeqb_spec), (get_None_notin Z.eqb zeqb_spec), Eg.
+Qed.
+
+Lemma remove_conn_nothing : forall cfg st c, get Z.eqb c (cobs st) = None -> remove_conn cfg st c = st.
+Proof. intros cfg st c H. unfold remove_conn. rewrite H. reflexivity. Qed.
+
+(* a report that does not count never adds a credit: either nothing changes
+   (countable content on a closed connection / without observer), or its
+   content is of a class that never counts and then the connection's previous
+   observation is withdrawn (removeConn) *)
+Lemma counts_none_step : forall cfg st c oa,
+  counts cfg (closed st) c oa = None ->
+  step cfg st (Observe c oa) = if withdraws cfg c oa then remove_conn cfg st c else st.
 Proof.
   intros cfg st c oa H. cbn [step]. pose proof (record_counts cfg st c oa) as R.
   rewrite H in R. exact R.
 Qed.
 
-Lemma filtered_never_counts_l : forall cfg st c oa,
-  o_lb oa = true \/ o_n64 oa = true \/ o_relay oa = true \/
-  zmem c (closed st) = true \/
-  (forall ci, conn_info cfg c = Some ci ->
-     match c_local ci with
-     | None => True                                  (* local address without a thin waist *)
-     | Some l => is_listen_tw cfg (tw_id l) = false  (* not arriving at a listen address *)
-                 \/ match o_tw oa with
-                    | None => True                   (* observed address without a thin waist *)
-                    | Some x => consistent l x = false   (* inconsistent transport *)
-                    end
-     end) ->
-  step cfg st (Observe c oa) = st.
+Lemma filtered_never_counts_l : forall cfg st c oa ci,
+  conn_info cfg c = Some ci ->
+  (o_lb oa = true \/ o_n64 oa = true \/ o_relay oa = true \/
+   match c_local ci with
+   | None => True                                  (* local address without a thin waist *)
+   | Some l => is_listen_tw cfg (tw_id l) = false  (* not arriving at a listen address *)
+               \/ match o_tw oa with
+                  | None => True                   (* observed address without a thin waist *)
+                  | Some x => consistent l x = false   (* inconsistent transport *)
+                  end
+   end) ->
+  let st' := step cfg st (Observe c oa) in
+  st' = remove_conn cfg st c /\ get Z.eqb c (cobs st') = None.
 Proof.
-  intros cfg st c oa H. apply counts_none_unchanged. unfold counts.
-  destruct (conn_info cfg c) as [ci|] eqn:Eci; [|reflexivity].
-  destruct (zmem c (closed st)) eqn:Ecl; [reflexivity|].
-  destruct H as [H|[H|[H|[H|H]]]].
-  - rewrite H. reflexivity.
-  - rewrite H, orb_true_r. reflexivity.
-  - rewrite H, !orb_true_r. reflexivity.
-  - discriminate.
-  - destruct (o_lb oa || o_n64 oa || o_relay oa); [reflexivity|].
-    specialize (H ci eq_refl). destruct (c_local ci) as [l|]; [|reflexivity].
+  intros cfg st c oa ci Eci H. cbn zeta.
+  assert (Hc : content_counts cfg ci oa = false).
+  { unfold content_counts. destruct H as [H|[H|[H|H]]].
+    - rewrite H. reflexivity.
+    - rewrite H, orb_true_r. reflexivity.
+    - rewrite H, !orb_true_r. reflexivity.
+    - destruct (negb (o_lb oa || o_n64 oa || o_relay oa)); [|reflexivity]. cbn [andb].
+      destruct (c_local ci) as [l|]; [|reflexivity].
+      destruct (o_tw oa) as [x|]; [|reflexivity].
+      destruct H as [H|H]; rewrite H; rewrite ?andb_false_r; reflexivity. }
+  assert (Hn : counts cfg (closed st) c oa = None).
+  { unfold counts. rewrite Eci. destruct (zmem c (closed st)); [reflexivity|].
+    unfold content_counts in Hc.
+    destruct (o_lb oa || o_n64 oa || o_relay oa); [reflexivity|]. cbn [negb andb] in Hc.
+    destruct (c_local ci) as [l|]; [|reflexivity].
     destruct (o_tw oa) as [x|]; [|reflexivity].
-    destruct (group_of (c_remote ci)); [|reflexivity].
-    destruct H as [H|H]; rewrite H; rewrite ?andb_false_r; reflexivity.
+    destruct (group_of (c_remote ci)); [|reflexivity]. rewrite Hc. reflexivity. }
+  rewrite (counts_none_step cfg st c oa Hn). unfold withdraws. rewrite Eci, Hc. cbn [negb].
+  split; [reflexivity|]. rewrite remove_conn_cobs. apply get_del_same.
+Qed.
+
+(* a report on a connection that is already closed is never credited *)
+Lemma closed_conn_never_credited_l : forall cfg st c oa,
+  zmem c (closed st) = true ->
+  let st' := step cfg st (Observe c oa) in
+  st' = st \/ (st' = remove_conn cfg st c /\ get Z.eqb c (cobs st') = None).
+Proof.
+  intros cfg st c oa Hz. cbn zeta.
+  assert (Hn : counts cfg (closed st) c oa = None).
+  { unfold counts. destruct (conn_info cfg c); [|reflexivity]. rewrite Hz. reflexivity. }
+  rewrite (counts_none_step cfg st c oa Hn). destruct (withdraws cfg c oa); [right|left; reflexivity].
+  split; [reflexivity|]. rewrite remove_conn_cobs. apply get_del_same.
 Qed.
 
 (* a counting report becomes the connection's one credited observation *)
@@ -500,9 +535,14 @@ Proof.
     destruct (conn_info cfg c) as [ci|]; [|exact Hz].
     destruct (c_local ci); [|exact Hz]. destruct (observer_of (c_remote ci)); exact Hz. }
   assert (Hr : record cfg (disconnect cfg st c) c oa = disconnect cfg st c).
-  { pose proof (record_counts cfg (disconnect cfg st c) c oa) as R.
-    unfold counts in R. rewrite Hz in R.
-    destruct (conn_info cfg c); exact R. }
+  { assert (Hg : get Z.eqb c (cobs (disconnect cfg st c)) = None).
+    { change (disconnect cfg st c) with (step cfg st (Disconnect c)).
+      rewrite disconnect_cobs. apply get_del_same. }
+    pose proof (record_counts cfg (disconnect cfg st c) c oa) as R.
+    assert (Hn : counts cfg (closed (disconnect cfg st c)) c oa = None).
+    { unfold counts. destruct (conn_info cfg c); [|reflexivity]. rewrite Hz. reflexivity. }
+    rewrite Hn in R. rewrite R.
+    destruct (withdraws cfg c oa); [apply remove_conn_nothing, Hg|reflexivity]. }
   rewrite Hr. repeat split; [|exact Hz].
   change (disconnect cfg st c) with (step cfg st (Disconnect c)).
   rewrite disconnect_cobs. apply get_del_same.
